@@ -61,12 +61,171 @@ package value
 //@   ensures [null-otherwise] !floatOk(p) ==> result == null
 //@   modifies nothing
 
+// truth reading of a value (type.go, the Ternary methods): text through strconv.ParseBool, 0/1 for numbers
+//@ spec opaque ternOf(p Primary) ternary.Value =
+//@     ite(is(p, *String), ite(proj(strconv.ParseBool(option.strTrim(as(p, *String).literal)), 1) == nil,
+//@             ite(proj(strconv.ParseBool(option.strTrim(as(p, *String).literal)), 0), ternary.TRUE, ternary.FALSE), ternary.UNKNOWN),
+//@     ite(is(p, *Integer), ite(as(p, *Integer).value == 0, ternary.FALSE, ite(as(p, *Integer).value == 1, ternary.TRUE, ternary.UNKNOWN)),
+//@     ite(is(p, *Float), ite(as(p, *Float).value == 0.0, ternary.FALSE, ite(as(p, *Float).value == 1.0, ternary.TRUE, ternary.UNKNOWN)),
+//@     ite(is(p, *Boolean), ite(as(p, *Boolean).value, ternary.TRUE, ternary.FALSE),
+//@     ite(is(p, *Ternary), as(p, *Ternary).value, ternary.UNKNOWN)))))
+//@ spec opaque boolOk(p Primary) bool = is(p, *Boolean) ||
+//@     ((is(p, *String) || is(p, *Integer) || is(p, *Float) || is(p, *Ternary)) && ternOf(p) != ternary.UNKNOWN)
+//@ spec opaque boolOf(p Primary) bool = ite(is(p, *Boolean), as(p, *Boolean).value, ternOf(p) == ternary.TRUE)
+
+//@ func (Primary).Ternary
+//@   trusted interface-level summary of the seven Ternary methods (each one is verified below against the same reading)
+//@   requires recv != nil
+//@   ensures result == ternOf(recv)
+//@   modifies nothing
+
+//@ func (String).Ternary
+//@   property C06
+//@   reveal ternOf
+//@   ensures [reading] forallv(p, *String, is(p, *String) && same(as(p, String), s) ==> result == ternOf(p))
+//@   modifies nothing
+//@ func (Integer).Ternary
+//@   property C06
+//@   reveal ternOf
+//@   ensures [reading] forallv(p, *Integer, is(p, *Integer) && same(as(p, Integer), i) ==> result == ternOf(p))
+//@   modifies nothing
+//@ func (Float).Ternary
+//@   property C06
+//@   reveal ternOf
+//@   ensures [reading] forallv(p, *Float, is(p, *Float) && same(as(p, Float), f) ==> result == ternOf(p))
+//@   modifies nothing
+//@ func (Boolean).Ternary
+//@   property C06
+//@   reveal ternOf
+//@   ensures [reading] forallv(p, *Boolean, is(p, *Boolean) && same(as(p, Boolean), b) ==> result == ternOf(p))
+//@   modifies nothing
+//@ func (Ternary).Ternary
+//@   property C06
+//@   reveal ternOf
+//@   ensures [reading] forallv(p, *Ternary, is(p, *Ternary) && same(as(p, Ternary), t) ==> result == ternOf(p))
+//@   modifies nothing
+
+//@ func ToBoolean
+//@   property C06 C14
+//@   reveal boolOk boolOf
+//@   ensures [reading] boolOk(p) ==> is(result, *Boolean) && as(result, *Boolean).value == boolOf(p)
+//@   ensures [singleton] boolOk(p) ==> result == booleanTrue || result == booleanFalse
+//@   ensures [null-otherwise] !boolOk(p) ==> result == null
+//@   modifies nothing
+
+// datetime reading: the text parser is outside the verified subset (time.Parse ladders); it is assumed to be a
+// function of the text, the format list and the location
+//@ spec func strTimeOk(s string, formats []string, location *time.Location) bool
+//@ spec func strTimeOf(s string, formats []string, location *time.Location) time.Time
+//@ func StrToTime
+//@   trusted assumed: deterministic in its arguments (the format strings themselves are treated as part of the list identity)
+//@   ensures result1 == strTimeOk(s, formats, location)
+//@   ensures result1 ==> result0 == strTimeOf(s, formats, location)
+//@   modifies nothing
+//@ spec opaque dtOk(p Primary, formats []string, location *time.Location) bool = is(p, *Datetime) ||
+//@     (is(p, *String) && strTimeOk(as(p, *String).literal, formats, location))
+//@ spec opaque dtOf(p Primary, formats []string, location *time.Location) time.Time = ite(is(p, *Datetime), as(p, *Datetime).value,
+//@     strTimeOf(as(p, *String).literal, formats, location))
+//@ func ToDatetime
+//@   property C06 C14
+//@   reveal dtOk dtOf
+//@   ensures [reading] dtOk(p, formats, location) ==> is(result, *Datetime) && as(result, *Datetime).value == dtOf(p, formats, location)
+//@   ensures [fresh] dtOk(p, formats, location) ==> fresh(result)
+//@   ensures [null-otherwise] !dtOk(p, formats, location) ==> result == null
+//@   modifies nothing
+
 //@ func IsNull
 //@   inline
 //@ func Discard
 //@   property C14
 //@   ensures true
 //@   modifies nothing
+
+// ---------------------------------------------------------------------------------------------
+// C06: the comparison ladder of docs/_posts/2006-01-02-comparison-operators.md
+// "integer, float, datetime, boolean, text; UNKNOWN with NULL or when nothing applies"
+
+//@ spec def upperTrim(p Primary) string = strings.ToUpper(option.strTrim(as(p, *String).literal))
+//@ spec opaque cmpOf(p1 Primary, p2 Primary, f []string, l *time.Location) ComparisonResult =
+//@   ite(p1 == null || p2 == null, IsIncommensurable,
+//@   ite(intStrictOk(p1) && intStrictOk(p2),
+//@       ite(intStrictOf(p1) == intStrictOf(p2), IsEqual, ite(intStrictOf(p1) < intStrictOf(p2), IsLess, IsGreater)),
+//@   ite(floatOk(p1) && floatOk(p2),
+//@       ite(isNaN(floatOf(p1)) || isNaN(floatOf(p2)), IsNotEqual,
+//@       ite(floatOf(p1) == floatOf(p2), IsEqual, ite(floatOf(p1) < floatOf(p2), IsLess, IsGreater))),
+//@   ite(dtOk(p1, f, l) && dtOk(p2, f, l),
+//@       ite(dtOf(p1, f, l).Equal(dtOf(p2, f, l)), IsEqual, ite(dtOf(p1, f, l).Before(dtOf(p2, f, l)), IsLess, IsGreater)),
+//@   ite(boolOk(p1) && boolOk(p2), ite(boolOf(p1) == boolOf(p2), IsBoolEqual, IsNotEqual),
+//@   ite(is(p1, *String) && is(p2, *String),
+//@       ite(upperTrim(p1) == upperTrim(p2), IsEqual, ite(upperTrim(p1) < upperTrim(p2), IsLess, IsGreater)),
+//@       IsIncommensurable))))))
+
+//@ func CompareCombinedly
+//@   property C06
+//@   reveal cmpOf
+//@   ensures [ladder] result == cmpOf(p1, p2, datetimeFormats, location)
+//@   modifies nothing
+
+// the six operators as functions of the ladder result (comparison-operators.md)
+//@ spec def tbool(b bool) ternary.Value = ite(b, ternary.TRUE, ternary.FALSE)
+//@ spec def opEq(c ComparisonResult) ternary.Value = ite(c != IsIncommensurable, tbool(c == IsEqual || c == IsBoolEqual), ternary.UNKNOWN)
+//@ spec def opNe(c ComparisonResult) ternary.Value = ite(c != IsIncommensurable, tbool(c != IsEqual && c != IsBoolEqual), ternary.UNKNOWN)
+//@ spec def ordered(c ComparisonResult) bool = c != IsIncommensurable && c != IsNotEqual && c != IsBoolEqual
+//@ spec def opLt(c ComparisonResult) ternary.Value = ite(ordered(c), tbool(c == IsLess), ternary.UNKNOWN)
+//@ spec def opGt(c ComparisonResult) ternary.Value = ite(ordered(c), tbool(c == IsGreater), ternary.UNKNOWN)
+//@ spec def opLe(c ComparisonResult) ternary.Value = ite(ordered(c), tbool(c != IsGreater), ternary.UNKNOWN)
+//@ spec def opGe(c ComparisonResult) ternary.Value = ite(ordered(c), tbool(c != IsLess), ternary.UNKNOWN)
+
+//@ func Equal
+//@   property C06
+//@   ensures [definition] result == opEq(cmpOf(p1, p2, datetimeFormats, location))
+//@   modifies nothing
+//@ func NotEqual
+//@   property C06
+//@   ensures [definition] result == opNe(cmpOf(p1, p2, datetimeFormats, location))
+//@   modifies nothing
+//@ func Less
+//@   property C06
+//@   ensures [definition] result == opLt(cmpOf(p1, p2, datetimeFormats, location))
+//@   modifies nothing
+//@ func Greater
+//@   property C06
+//@   ensures [definition] result == opGt(cmpOf(p1, p2, datetimeFormats, location))
+//@   modifies nothing
+//@ func LessOrEqual
+//@   property C06
+//@   ensures [definition] result == opLe(cmpOf(p1, p2, datetimeFormats, location))
+//@   modifies nothing
+//@ func GreaterOrEqual
+//@   property C06
+//@   ensures [definition] result == opGe(cmpOf(p1, p2, datetimeFormats, location))
+//@   modifies nothing
+
+// orders assumed of the library: Go's < on strings and time.Time's Before/Equal are strict total orders
+//@ axiom string_order: forallv(x, string, forallv(y, string, !(x < y && y < x) && (x == y || x < y || y < x) && (x == y ==> !(x < y))))
+//@ axiom time_order: forallv(x, time.Time, forallv(y, time.Time, (x.Equal(y) ==> y.Equal(x)) && !(x.Before(y) && y.Before(x)) &&
+//@     (x.Equal(y) ==> !x.Before(y) && !y.Before(x)) && (x.Equal(y) || x.Before(y) || y.Before(x))))
+
+// the consistency laws of the property statement, as lemmas over the operator definitions
+//@ spec def swapCmp(c ComparisonResult) ComparisonResult = ite(c == IsLess, IsGreater, ite(c == IsGreater, IsLess, c))
+//@ lemma cmp_swap: forallv(a, Primary, forallv(b, Primary, forallv(f, []string, forallv(l, *time.Location,
+//@     cmpOf(b, a, f, l) == swapCmp(cmpOf(a, b, f, l))))))
+//@   property C06
+//@   reveal cmpOf
+//@ lemma law_less_is_greater_swapped: forallv(a, Primary, forallv(b, Primary, forallv(f, []string, forallv(l, *time.Location,
+//@     opLt(cmpOf(a, b, f, l)) == opGt(cmpOf(b, a, f, l))))))
+//@   property C06
+//@   use cmp_swap
+//@ lemma law_ne_is_not_eq: forallv(c, ComparisonResult, opNe(c) == ternary.Not(opEq(c)))
+//@   property C06
+//@ lemma law_eq_symmetric: forallv(a, Primary, forallv(b, Primary, forallv(f, []string, forallv(l, *time.Location,
+//@     opEq(cmpOf(a, b, f, l)) == opEq(cmpOf(b, a, f, l))))))
+//@   property C06
+//@   use cmp_swap
+//@ lemma law_le_is_lt_or_eq: forallv(c, ComparisonResult, 0 <= c && c <= 5 && ordered(c) ==> opLe(c) == ternary.Or(opLt(c), opEq(c)))
+//@   property C06
+//@ lemma law_ge_is_gt_or_eq: forallv(c, ComparisonResult, 0 <= c && c <= 5 && ordered(c) ==> opGe(c) == ternary.Or(opGt(c), opEq(c)))
+//@   property C06
 
 //@ func compareInteger
 //@   property C06
@@ -87,3 +246,40 @@ package value
 //@ func compareInteger!canary
 //@   property CANARY
 //@   ensures [false-claim] result == IsEqual
+
+// must-fail canary for the lemma machinery: comparison is not symmetric
+//@ lemma canary_cmp_symmetric: forallv(a, Primary, forallv(b, Primary, forallv(f, []string, forallv(l, *time.Location,
+//@     cmpOf(b, a, f, l) == cmpOf(a, b, f, l)))))
+//@   property CANARY
+//@   reveal cmpOf
+
+// identical (==): same type and same datum; UNKNOWN with NULL or the UNKNOWN ternary
+//@ spec opaque identOf(p1 Primary, p2 Primary) ternary.Value =
+//@   ite(p1 == null || p2 == null || (is(p1, *Ternary) && as(p1, *Ternary).value == ternary.UNKNOWN) || (is(p2, *Ternary) && as(p2, *Ternary).value == ternary.UNKNOWN), ternary.UNKNOWN,
+//@   ite(is(p1, *Integer) && is(p2, *Integer), tbool(as(p1, *Integer).value == as(p2, *Integer).value),
+//@   ite(is(p1, *Float) && is(p2, *Float), tbool(as(p1, *Float).value == as(p2, *Float).value),
+//@   ite(is(p1, *Datetime) && is(p2, *Datetime), tbool(as(p1, *Datetime).value.Equal(as(p2, *Datetime).value)),
+//@   ite(is(p1, *Boolean) && is(p2, *Boolean), tbool(as(p1, *Boolean).value == as(p2, *Boolean).value),
+//@   ite(is(p1, *Ternary) && is(p2, *Ternary), tbool(as(p1, *Ternary).value == as(p2, *Ternary).value),
+//@   ite(is(p1, *String) && is(p2, *String), tbool(as(p1, *String).literal == as(p2, *String).literal), ternary.FALSE)))))))
+//@ func Identical
+//@   property C06
+//@   reveal identOf
+//@   ensures [definition] result == identOf(p1, p2)
+//@   modifies nothing
+
+//@ func Compare
+//@   property C06
+//@   ensures [dispatch] result == ite(operator == "=", opEq(cmpOf(p1, p2, datetimeFormats, location)),
+//@       ite(operator == "==", identOf(p1, p2),
+//@       ite(operator == ">", opGt(cmpOf(p1, p2, datetimeFormats, location)),
+//@       ite(operator == "<", opLt(cmpOf(p1, p2, datetimeFormats, location)),
+//@       ite(operator == ">=", opGe(cmpOf(p1, p2, datetimeFormats, location)),
+//@       ite(operator == "<=", opLe(cmpOf(p1, p2, datetimeFormats, location)), opNe(cmpOf(p1, p2, datetimeFormats, location))))))))
+//@   modifies nothing
+
+//@ func Equivalent
+//@   property C06 C04
+//@   ensures [null-equals-null] p1 == null && p2 == null ==> result == ternary.TRUE
+//@   ensures [otherwise-equal] !(p1 == null && p2 == null) ==> result == opEq(cmpOf(p1, p2, datetimeFormats, location))
+//@   modifies nothing
